@@ -19,15 +19,22 @@
        CONCAT (strings), FAILWITH
      stage 2a: bytes (CONCAT, SIZE, SLICE, COMPARE), SLICE on strings, AND/OR/XOR/NOT on nat/int, LSL/LSR
      stage 2b: PAIR n / UNPAIR n / GET k / UPDATE k (GET 0 / UPDATE 0 only on pairs: pytezos rejects other operands)
-     later stages: sets/maps, mutez/timestamp arithmetic,
+     stage 2c: mutez and timestamp arithmetic (ADD/SUB/MUL/EDIV overloads, SUB_MUTEZ, COMPARE), environment instructions
+       AMOUNT BALANCE SENDER SOURCE SELF_ADDRESS NOW LEVEL CHAIN_ID reading an [env] record
+     later stages: sets/maps,
        LAMBDA/EXEC/APPLY, environment instructions, PACK/UNPACK, hashes. *)
 From Coq Require Import List ZArith NArith Bool Arith.
 From Coq.Strings Require Import Byte.
 From PV Require Import Base.Bytes.
 Import ListNotations.
 
+(* mutez are 63-bit: 0 <= amount < mutez_bound *)
+Definition mutez_bound : Z := (2 ^ 63)%Z.
+
 Inductive ty : Type :=
 | TInt | TNat | TString | TBytes | TBool | TUnit
+| TMutez | TTimestamp
+| TAddress | TChainId   (* opaque in the fragment: produced by the environment instructions only, no literals, no COMPARE *)
 | TOperation   (* no literal, no value in the fragment: only NIL operation occurs (contract results) *)
 | TPair (a b : ty)
 | TOption (a : ty)
@@ -36,6 +43,7 @@ Inductive ty : Type :=
 
 Fixpoint ty_eqb (x y : ty) : bool :=
   match x, y with
+  | TMutez, TMutez | TTimestamp, TTimestamp | TAddress, TAddress | TChainId, TChainId
   | TInt, TInt | TNat, TNat | TString, TString | TBytes, TBytes | TBool, TBool | TUnit, TUnit | TOperation, TOperation => true
   | TPair a b, TPair c d => ty_eqb a c && ty_eqb b d
   | TOption a, TOption c => ty_eqb a c
@@ -47,6 +55,7 @@ Fixpoint ty_eqb (x y : ty) : bool :=
 (* literals *)
 Inductive data : Type :=
 | DInt (z : Z)
+| DMutez (z : Z)     (* an integer literal read at type mutez (the harness renders literals type-directedly) *)
 | DStr (s : bytes)
 | DBytes (b : bytes)
 | DBool (b : bool)
@@ -83,6 +92,8 @@ Inductive instr : Type :=
 | I_SOME | I_NONE (t : ty) | I_UNIT
 | I_NIL (t : ty) | I_CONS | I_SIZE
 | I_ADD | I_SUB | I_MUL | I_NEG | I_ABS | I_ISNAT | I_INT | I_EDIV
+| I_SUB_MUTEZ
+| I_AMOUNT | I_BALANCE | I_SENDER | I_SOURCE | I_SELF_ADDRESS | I_NOW | I_LEVEL | I_CHAIN_ID
 | I_COMPARE | I_EQ | I_NEQ | I_LT | I_GT | I_LE | I_GE
 | I_AND | I_OR | I_XOR | I_NOT   (* on bool; AND/OR/XOR also on nat (AND also int*nat), NOT on nat/int *)
 | I_LSL | I_LSR
@@ -99,6 +110,16 @@ Fixpoint in_fragmentb (i : instr) : bool :=
   | _ => true
   end.
 Definition in_fragment (i : instr) : Prop := in_fragmentb i = true.
+
+(* the execution environment read by AMOUNT, BALANCE, SENDER, SOURCE, SELF_ADDRESS, NOW, LEVEL, CHAIN_ID *)
+Record env : Type := mkenv {
+  e_amount : Z; e_balance : Z;
+  e_sender : bytes; e_source : bytes; e_self : bytes;
+  e_now : Z; e_level : Z; e_chain_id : bytes }.
+
+(* amounts are mutez, the level is a natural number (addresses and the chain id are valid base58 texts: not modelled) *)
+Definition env_okb (e : env) : bool :=
+  (0 <=? e_amount e)%Z && (e_amount e <? mutez_bound)%Z && (0 <=? e_balance e)%Z && (e_balance e <? mutez_bound)%Z && (0 <=? e_level e)%Z.
 
 (* DROP n / DUP n / DIG n / DUG n as functions on a stack (top first) of anything: used on type stacks by the
    type checker and on value stacks by the reference semantics. None = the stack is too short. *)
@@ -126,6 +147,7 @@ Definition is_shuffle (i : instr) : bool :=
 (* run-time values of the reference semantics *)
 Inductive value : Type :=
 | VInt (z : Z)
+| VMutez (z : Z)     (* mutez arithmetic is bounded: it needs its own constructor *)
 | VStr (s : bytes)
 | VBool (b : bool)
 | VUnit
@@ -139,6 +161,7 @@ Inductive value : Type :=
 Fixpoint value_of_data (d : data) : value :=
   match d with
   | DInt z => VInt z
+  | DMutez z => VMutez z
   | DStr s => VStr s
   | DBytes b => VStr b   (* strings and bytes are both byte sequences for the reference semantics *)
   | DBool b => VBool b
@@ -208,6 +231,8 @@ Fixpoint data_has_type (t : ty) (d : data) {struct d} : bool :=
   match d, t with
   | DInt _, TInt => true
   | DInt z, TNat => (0 <=? z)%Z
+  | DInt _, TTimestamp => true
+  | DMutez z, TMutez => (0 <=? z)%Z && (z <? mutez_bound)%Z
   | DStr _, TString => true
   | DBytes _, TBytes => true
   | DBool _, TBool => true
@@ -225,6 +250,10 @@ Fixpoint data_has_type (t : ty) (d : data) {struct d} : bool :=
 Inductive pval : Type :=
 | PInt (z : Z)                 (* IntType *)
 | PNat (z : Z)                 (* NatType: a subclass of IntType holding a Python int *)
+| PMutez (z : Z)               (* MutezType (a NatType subclass) *)
+| PTimestamp (z : Z)           (* TimestampType (an IntType subclass) *)
+| PAddress (s : bytes)         (* AddressType (a StringType subclass holding the base58 text) *)
+| PChainId (s : bytes)
 | PStr (s : bytes)
 | PBytes (b : bytes)             (* BytesType *)
 | PBool (b : bool)
@@ -241,6 +270,10 @@ Fixpoint rt_type (v : pval) : ty :=
   match v with
   | PInt _ => TInt
   | PNat _ => TNat
+  | PMutez _ => TMutez
+  | PTimestamp _ => TTimestamp
+  | PAddress _ => TAddress
+  | PChainId _ => TChainId
   | PStr _ => TString
   | PBytes _ => TBytes
   | PBool _ => TBool
@@ -258,6 +291,10 @@ Fixpoint pv_typedb (v : pval) (t : ty) {struct v} : bool :=
   match v, t with
   | PInt _, TInt => true
   | PNat z, TNat => (0 <=? z)%Z
+  | PMutez z, TMutez => (0 <=? z)%Z && (z <? mutez_bound)%Z
+  | PTimestamp _, TTimestamp => true
+  | PAddress _, TAddress => true
+  | PChainId _, TChainId => true
   | PStr _, TString => true
   | PBytes _, TBytes => true
   | PBool _, TBool => true
@@ -276,6 +313,10 @@ Fixpoint erase (v : pval) : value :=
   match v with
   | PInt z => VInt z
   | PNat z => VInt z
+  | PMutez z => VMutez z
+  | PTimestamp z => VInt z
+  | PAddress s => VStr s
+  | PChainId s => VStr s
   | PStr s => VStr s
   | PBytes b => VStr b
   | PBool b => VBool b
@@ -293,6 +334,8 @@ Fixpoint py_of_data (t : ty) (d : data) {struct d} : option pval :=
   match d, t with
   | DInt z, TInt => Some (PInt z)
   | DInt z, TNat => if (z <? 0)%Z then None else Some (PNat z)
+  | DInt z, TTimestamp => Some (PTimestamp z)
+  | DMutez z, TMutez => if (z <? 0)%Z then None else if (z <? mutez_bound)%Z then Some (PMutez z) else None
   | DStr s, TString => Some (PStr s)
   | DBytes b, TBytes => Some (PBytes b)
   | DBool b, TBool => Some (PBool b)
@@ -323,6 +366,7 @@ Fixpoint py_of_data (t : ty) (d : data) {struct d} : option pval :=
 Fixpoint value_eqb (x y : value) {struct x} : bool :=
   match x, y with
   | VInt a, VInt b => Z.eqb a b
+  | VMutez a, VMutez b => Z.eqb a b
   | VStr a, VStr b => bytes_eqb a b
   | VBool a, VBool b => Bool.eqb a b
   | VUnit, VUnit => true
@@ -345,6 +389,10 @@ Fixpoint pval_eqb (x y : pval) {struct x} : bool :=
   match x, y with
   | PInt a, PInt b => Z.eqb a b
   | PNat a, PNat b => Z.eqb a b
+  | PMutez a, PMutez b => Z.eqb a b
+  | PTimestamp a, PTimestamp b => Z.eqb a b
+  | PAddress a, PAddress b => bytes_eqb a b
+  | PChainId a, PChainId b => bytes_eqb a b
   | PStr a, PStr b => bytes_eqb a b
   | PBytes a, PBytes b => bytes_eqb a b
   | PBool a, PBool b => Bool.eqb a b
